@@ -134,6 +134,9 @@ impl WriteExt for Writer<&mut BytesMut> {
 
 impl<W: WriteExt + ?Sized> WriteExt for IoBufWriter<W> {
     fn reserve_with(&mut self, additional: usize) -> io::Result<&mut [MaybeUninit<u8>]> {
+        // the reserved bytes are committed directly in the inner writer: everything that is
+        // still buffered here was written earlier and must reach the inner writer first
+        io::Write::flush(self)?;
         self.get_mut().reserve_with(additional)
     }
 
